@@ -106,6 +106,9 @@ PROP = {'drive': ['Cff'], 'modules': ['SfntV.Props.C13'],
                  'zero-length INDEX elements: D cff.index.rt on the real code (readIndex(encode x) = x; empty elements first, middle, last, all) and '
                  'D cff.file.rtself (Write refuses or Read gives the font back) on fonts with an empty glyph name, an empty ROS registry / '
                  'ordering and an empty FontName - the unchanged Write accepts all of them and Read returns them',
+                 'font matrices equal to the applicable default in the linear part only (translation 0.25, -0.125, 0.5, 0.0625, 1e-4, 100, ...) or in '
+                 'all but one linear entry, in the simple top DICT, the CID-keyed top DICT and the Font DICTs (D cff.file.rt, V cff.file.model; the '
+                 'model of the omission test fontMatrixNeeded compares all six entries)',
                  'encodings with 250..256 codes (contiguous, scrambled, partly ranged, range counts 1..256 around 127/128/129 and 255, '
                  'supplements) are a fixed boundary family: D cff.encoding.rt on the real code, V against the model, whole fonts with 255/256 '
                  'encoded glyphs; 256 glyphs in 256 ranges are refused by encodeEncoding (neither format can hold them), verdict only',
